@@ -4,26 +4,29 @@
   tools/refrun.py <dir-with-patch.diff> [props...]
 """
 import sys, os, subprocess, json, time
+
+# MUT_REPO: a scratch worktree of /repo to work in (default: /repo itself); the checks are pointed at it through VERIF_REPO
+REPO = os.environ.get("MUT_REPO", "/repo")
 ALL = ["C%02d" % i for i in range(1, 21)]
 def main():
     d = sys.argv[1]
     props = sys.argv[2:] or ALL
-    st = subprocess.run(["git", "-C", "/repo", "status", "--porcelain", "--untracked-files=no"], capture_output=True, text=True).stdout.strip()
+    st = subprocess.run(["git", "-C", REPO, "status", "--porcelain", "--untracked-files=no"], capture_output=True, text=True).stdout.strip()
     if st:
         print("refusing: /repo has local modifications"); return 2
-    r = subprocess.run(["git", "-C", "/repo", "apply", "--whitespace=nowarn", os.path.join(d, "patch.diff")], capture_output=True, text=True)
+    r = subprocess.run(["git", "-C", REPO, "apply", "--whitespace=nowarn", os.path.join(d, "patch.diff")], capture_output=True, text=True)
     if r.returncode != 0:
         print("PATCH-DOES-NOT-APPLY", d, r.stderr.strip()[:300]); return 2
     res = {}
     try:
         for p in props:
             t0 = time.time()
-            rr = subprocess.run(["/verif/vcheck", p, "--tier", "quick"], cwd="/verif", capture_output=True, text=True)
+            rr = subprocess.run(["/verif/vcheck", p, "--tier", "quick"], cwd="/verif", env=dict(os.environ, VERIF_REPO=REPO), capture_output=True, text=True)
             res[p] = rr.returncode
             if rr.returncode != 0:
                 print("ALARM %s %s rc=%d\n   %s" % (os.path.basename(os.path.normpath(d)), p, rr.returncode, "\n   ".join((rr.stdout + rr.stderr).splitlines()[-8:])))
     finally:
-        subprocess.run(["git", "-C", "/repo", "checkout", "--", "."], check=True)
+        subprocess.run(["git", "-C", REPO, "checkout", "--", "."], check=True)
     bad = {p: c for p, c in res.items() if c != 0}
     print("%s %s: %d checks, %s" % ("SILENT" if not bad else "NOT-SILENT", d, len(res), bad or "all exit 0"))
     json.dump(res, open(os.path.join(d, "refrun_result.json"), "w"))
